@@ -253,7 +253,51 @@ impl Check {
         });
         let ev_dir = root.join("evidence");
         let _ = std::fs::create_dir_all(&ev_dir);
-        let ev_path = ev_dir.join(format!("{}.json", self.id));
+        let part = std::env::var("VERIF_EVIDENCE_PART").ok();
+        let ev_path = match &part {
+            Some(p) => ev_dir.join(format!("{}.part-{}.json", self.id, p)),
+            None => ev_dir.join(format!("{}.json", self.id)),
+        };
+        // Last stage of a multi-stage check: fold the earlier stages' parts into this evidence.
+        let mut ev = ev;
+        if let (None, Ok(merge)) = (&part, std::env::var("VERIF_EVIDENCE_MERGE")) {
+            let mut stages = Map::new();
+            for name in merge.split(',').filter(|s| !s.is_empty()) {
+                let pp = ev_dir.join(format!("{}.part-{}.json", self.id, name));
+                let Some(pv) = std::fs::read_to_string(&pp).ok().and_then(|t| serde_json::from_str::<Value>(&t).ok()) else {
+                    eprintln!("missing evidence part {}", pp.display());
+                    std::process::exit(2);
+                };
+                for key in ["evaluations", "distinct_nontrivial", "states", "transitions", "traces_validated_against_impl"] {
+                    let add = pv["coverage"][key].as_u64().unwrap_or(0);
+                    if let Some(cur) = ev["coverage"].get(key).and_then(Value::as_u64) {
+                        ev["coverage"][key] = json!(cur + add);
+                    } else if add > 0 && self.level == "model_checking" {
+                        ev["coverage"][key] = json!(add);
+                    }
+                }
+                if pv["coverage"]["exhaustive"] == json!(false) {
+                    ev["coverage"]["exhaustive"] = json!(false);
+                }
+                let w = pv["wall_s"].as_f64().unwrap_or(0.0) + ev["wall_s"].as_f64().unwrap_or(0.0);
+                ev["wall_s"] = json!(w);
+                let vs = pv["violations"].as_u64().unwrap_or(0) + ev["violations"].as_u64().unwrap_or(0);
+                ev["violations"] = json!(vs);
+                if let Some(samples) = pv["coverage"]["samples"].as_array() {
+                    if let Some(arr) = ev["coverage"]["samples"].as_array_mut() {
+                        arr.extend(samples.iter().take(3).cloned());
+                    }
+                }
+                if let Some(a) = pv["assumptions"].as_array() {
+                    if let Some(arr) = ev["assumptions"].as_array_mut() {
+                        arr.extend(a.iter().cloned());
+                    }
+                }
+                stages.insert(name.to_string(), pv["coverage"].clone());
+                let _ = std::fs::remove_file(&pp);
+            }
+            ev["coverage"]["stages"] = Value::Object(stages);
+        }
         if let Err(e) = std::fs::write(&ev_path, serde_json::to_string_pretty(&ev).unwrap()) {
             eprintln!("cannot write evidence {}: {e}", ev_path.display());
             std::process::exit(2);
